@@ -72,8 +72,11 @@ struct Item {
 
 struct ItemM { uint64_t chain = ITEM_C0; uint32_t n = 0; };
 
-struct ItemUpdatePolicy {
-  Item create() const { return Item(); }
+struct ItemUpdatePolicy {   // STATEFUL: every summary it creates starts from a chain value salted by the policy
+  uint64_t salt = 0;
+  ItemUpdatePolicy() {}
+  explicit ItemUpdatePolicy(uint64_t s): salt(s) {}
+  Item create() const { return Item(ITEM_C0 ^ salt, 0); }
   void update(Item& s, const Item& u) const { s.absorb(u); }
   void update(Item& s, Item&& u) const { s.absorb(u); Item sink(std::move(u)); }   // really consumes the rvalue
 };
@@ -111,7 +114,7 @@ struct ItemT {
   static const char* name() { return "item"; }
   static int id() { return 3; }
   using Summary = Item; using UV = uint64_t; using M = ItemM;
-  struct Cfg {};
+  struct Cfg { uint64_t salt = 0; };
   using UpdateSketch = update_tuple_sketch<Item, Item, ItemUpdatePolicy>;
   using CompactSketch = compact_tuple_sketch<Item>;
   using BaseCompact = CompactSketch;
@@ -120,11 +123,11 @@ struct ItemT {
   using ANotB = tuple_a_not_b<Item>;
   static const bool anotb_accepts_base_a = true;
 
-  static Cfg gen_cfg(Rng&) { return Cfg(); }
-  static std::string cfg_str(const Cfg&) { return ""; }
+  static Cfg gen_cfg(Rng& r) { Cfg c; c.salt = r.next(); return c; }
+  static std::string cfg_str(const Cfg& c) { return "policy-salt=" + std::to_string(c.salt); }
   static UV gen_uv(Rng& r, const Cfg&) { return r.next() | 1; }
   static std::string uv_str(const UV& v) { return std::to_string(v); }
-  static M m_create(const Cfg&) { return M(); }
+  static M m_create(const Cfg& c) { M m; m.chain = ITEM_C0 ^ c.salt; return m; }
   static void m_update(M& m, const UV& v) { m.chain = mix64(m.chain, v); m.n += 1; }
   static void m_merge(M& m, const M& o) { m.chain = mix64(m.chain, o.chain); m.n += o.n; }
   static M read(const Summary& s) {
@@ -138,8 +141,8 @@ struct ItemT {
     switch (param) { case 0: return m.n % 2 == 1; case 1: return (m.chain & 8) != 0; case 2: return m.n >= 2; default: return false; }
   }
   static Summary make_summary(const M& m, const Cfg&) { return Item(m.chain, m.n); }
-  static UpdateSketch make_update(const Cfg&, uint8_t lg_k, int rf, float p, uint64_t seed) {
-    return UpdateSketch::builder().set_lg_k(lg_k).set_resize_factor(static_cast<theta_constants::resize_factor>(rf)).set_p(p).set_seed(seed).build();
+  static UpdateSketch make_update(const Cfg& c, uint8_t lg_k, int rf, float p, uint64_t seed) {
+    return UpdateSketch::builder(ItemUpdatePolicy(c.salt)).set_lg_k(lg_k).set_resize_factor(static_cast<theta_constants::resize_factor>(rf)).set_p(p).set_seed(seed).build();
   }
   static void do_update(UpdateSketch& sk, const Val& key, const UV& uv, Rng& r, const Cfg&) {
     Item u(uv);
